@@ -399,7 +399,7 @@ func (g *fastGenerator) fieldItem(field *protogen.Field, fieldname string, messa
 			msgname := g.noStarOrSliceType(field)
 			g.P(`v := &`, msgname, `{}`)
 			// a repeated occurrence of the selected member merges into it
-			g.P(`if m, ok := x.`, fieldname, `.(*`, field.GoIdent, `); ok && m.`, field.GoName, ` != nil {`)
+			g.P(`if m, ok := x.`, fieldname, `.(*`, field.GoIdent, `); ok && m != nil && m.`, field.GoName, ` != nil {`)
 			g.P(`v = m.`, field.GoName)
 			g.P(`}`)
 			g.decodeMessage("v", buf, field.Message)
